@@ -355,9 +355,19 @@ func checkClone(p *Program, r *Report, pv *Prov) {
 						sfa := st.Addr.(*ssa.FieldAddr)
 						if sfa.X == fa.X && before(st, u) && storeOnEveryPath(st, u) {
 							if cp, ok := isCallTo(st.Val, "(*text/template/parse.Tree).Copy"); ok {
-								// copy of the same template's own tree
+								// copy of the same template's own tree: x.Tree = x.Tree.Copy(), not the tree of another
+								// object (the exported Tree field of the source wrapper can be replaced by a client)
 								src := pv.Of(cp.Common().Args[0])
 								okTree = src.Op == "field" && src.Name == "Tree"
+								if ld, isLd := cp.Common().Args[0].(*ssa.UnOp); isLd {
+									if afa, isFA := ld.X.(*ssa.FieldAddr); isFA {
+										okTree = okTree && afa.X == sfa.X
+									} else {
+										okTree = false
+									}
+								} else {
+									okTree = false
+								}
 							}
 						}
 					}
